@@ -538,6 +538,10 @@ def check_C09(A, R, tier):
     # R9.2 (necessary for 'no excess on resume'): stale-but-equivalent records are never compared textually
     from rules_compare import rule_no_textual_record_compare
     rule_no_textual_record_compare(A, R, "R9.2")
+    # R9.3 (= R3.8): an invalidated Ephemeral somebody can need is never skipped (a skip refreshes the records of what it consumed:
+    # after an interruption the resumed evaluation would then not rebuild it)
+    from rules_compare import rule_no_skip_when_invalidated
+    rule_no_skip_when_invalidated(A, R, "R9.3")
     R.explanation = ("First sentence decided: for every final point (state in upstream-failed/aborted, never started) the abstract run of "
                      "new_history reaches no removal keyed by the job and writes no per-dependency record into it; 'never started' is "
                      "the ghost bit 'passed Running', identified with a bool field of NodeInfo that is false at creation and set exactly "
